@@ -6,28 +6,30 @@ A3  extremes are [0, n-1] in both variants (every index that reaches filter_wors
 A4  union -> astype(int) -> unique -> filter_worst_knees on every path.
 A5  knees (and candidates) pass through rdp.mapping(., reduced, removed) before the union.
 A6  knees-as-markers variant: gaps (0, k_0), (k_{j-1}, k_j), (k_last, n-1).
+
+The two functions are evaluated as a whole with exact loop summaries (kverif.seqdom): the list of inserted points is
+a symbolic sequence (nested generator blocks with canonical loop variables), so the facts are read off the *value*
+that reaches filter_worst_knees and do not depend on how the loops, temporaries and helpers are arranged.
 """
 
 from __future__ import annotations
 
 import ast
+import itertools
 
 from .. import AnalysisError, anf
 from ..anf import Rat, sym
 from ..guards import (G, TRUE, FALSE, g_and, g_not, g_or, g_equiv, g_implies, g_sat, compare, canon_sign, OPS)
 from ..gvn import Frame, Obj, PW, Vec, cases_of, veq, mk_pw, Unsupported
 from ..intervals import single_atom
-from .common import RuleCtx, _short, range_args, stored_names
+from ..seqdom import Gen, flatten, seq_equiv, var_symbol
+from .common import RuleCtx, _short
 
 C = Rat.const
 
 
 def _at(x, i):
     return anf.opaque("at", x, i, array=False)
-
-
-def _top_loops(fi):
-    return [st for st in fi.node.body if isinstance(st, (ast.For, ast.While))]
 
 
 def _ranges(pts):
@@ -44,142 +46,183 @@ def _cand_guard(pts, l, r, tx, ty, px=None, py=None):
     py = pts.items[1] if py is None else py
     pdx = anf.f_abs(_at(px, r) - _at(px, l)) / dx
     pdy = anf.f_abs(_at(py, r) - _at(py, l)) / dy
-    return g_and(canon_sign(pdx - C(2) * tx, OPS[">"]), canon_sign(pdy - ty, OPS[">"])), pdx
+    return g_and(canon_sign(pdx - C(2) * tx, OPS[">"]), canon_sign(pdy - ty, OPS[">"]))
 
 
-def _check_process(rc: RuleCtx, fi, loop: ast.For, env, ev, left: Rat, right: Rat, benv, tag: str):
-    """A2 on the candidate-processing loop body (`benv` has left/right bound)."""
-    res = rc.res
-    pts = env["points"]
-    tx = env["tx"]
-    inner = [st for st in loop.body if isinstance(st, ast.For)]
-    if len(inner) != 1:
-        raise AnalysisError(f"{fi.qualname}: expected one inner insertion loop")
-    k = loop.body.index(inner[0])
-    fr = Frame(ev, fi, 0)
-    e2 = dict(benv)
-    fr.block(loop.body[:k], e2, TRUE)
+def _inner(depth: int, pts, tx, l: Rat, r: Rat, guard: G = TRUE) -> Gen:
+    """The points inserted into one candidate segment (l, r): l + j*int((r-l)/k), j = 1..k, k = ceil(w/(2*tx))."""
     dx, _dy = _ranges(pts)
-    pdx = anf.f_abs(_at(pts.items[0], right) - _at(pts.items[0], left)) / dx
-    want_n = anf.opaque("int", anf.opaque("ceil", pdx / (C(2) * tx), array=False), array=False)
-    ra = range_args(inner[0])
-    cnt = fr.expr(ra[0], e2) if ra and len(ra) == 1 else None
-    good = isinstance(cnt, Rat) and (cnt.equals(want_n) or cnt.equals(anf.opaque("ceil", pdx / (C(2) * tx), array=False)))
-    if good:
-        res.ok("A2", f"{tag}:count", "ceil(normalised width / (2*tx)) points per candidate segment")
-    else:
-        res.violation("A2", fi.module, fi.name, inner[0], "the number of inserted points is not ceil(w / (2*tx)) with w the normalised width of the segment",
-                      _short(cnt, 200), _short(want_n, 200), construct=f"point count {tag}")
-        return
-    # stride and start
-    idx_name = None
-    for st in inner[0].body:
-        if isinstance(st, ast.Assign) and isinstance(st.targets[0], ast.Name):
-            idx_name = st.targets[0].id
-    start = e2.get(idx_name)
-    want_inc = anf.opaque("int", (right - left) / cnt, array=False)
-    b3 = dict(e2)
-    b3[idx_name] = ev.symbol(idx_name)
-    lists = [n for n, v in env.items() if isinstance(v, Vec) and v.kind == "list"]
-    for n in lists:
-        b3[n] = ev.symbol(n + "@list")
-    out = ev.eval_loop_body(fi, inner[0], b3)
-    apps = [e for e in out.events if e.kind == "append"]
-    new_idx = out.env.get(idx_name)
-    ok = isinstance(start, Rat) and start.equals(left) and isinstance(new_idx, Rat) and new_idx.equals(sym(idx_name) + want_inc) \
-        and len(apps) == 1 and apps[0].guard.kind == "true" and isinstance(apps[0].args[0], Rat) and apps[0].args[0].equals(new_idx)
-    if ok:
-        res.ok("A2", f"{tag}:stride", "idx starts at left; each step adds int((right - left) / k) and emits idx")
-        return apps[0].target
-    res.violation("A2", fi.module, fi.name, inner[0], "the inserted points are not left + j * int((right - left) / k), j = 1..k",
-                  f"start {_short(start, 60)}; idx' = {_short(new_idx, 120)}; emitted {[_short(a.args[0], 80) for a in apps]}",
-                  "idx = left; repeat k times: idx += int((right-left)/k); new_knees.append(idx)", construct=f"stride {tag}")
-    return None
+    pdx = anf.f_abs(_at(pts.items[0], r) - _at(pts.items[0], l)) / dx
+    k = anf.opaque("ceil", pdx / (C(2) * tx), array=False)
+    inc = anf.opaque("int", (r - l) / k, array=False)
+    j = var_symbol(depth)
+    return Gen(depth, C(0), k, C(1), [(guard, l + inc * (j + C(1)), False)])
 
 
-def _check_tail(rc: RuleCtx, fi, stmts, env, ev, tag: str, mapped_knees: bool):
-    """A3 / A4 / A5 on the straight-line tail after the processing loop."""
+def _index_pool(g: G, px: Rat) -> list:
+    """Index expressions I such that at(px, I) occurs in the guard: the endpoints a candidate test looks at."""
+    pool = {}
+
+    def walk(x: G):
+        if x.kind == "sign":
+            for a in x.a.all_atoms():
+                if a.kind == "fn" and a.name == "at" and a.args[0].equals(px):
+                    pool[a.args[1].key] = a.args[1]
+        elif x.kind == "not":
+            walk(x.a)
+        elif x.kind in ("and", "or"):
+            for y in x.a:
+                walk(y)
+    walk(g)
+    return list(pool.values())
+
+
+def _segments_of(items, what: str):
+    """Decompose the inserted-point sequence into per-segment blocks: (outer range or None, guard, inner Gen)."""
+    out = []
+    for it in items:
+        if not (isinstance(it, Gen) and it.ranged):
+            raise AnalysisError(f"{what}: an inserted-point block is not a summarised loop - shape not recognised ({_short(it, 80)})")
+        if len(it.parts) == 1 and it.parts[0][2] and isinstance(it.parts[0][1], Vec) and len(it.parts[0][1].items) == 1 \
+                and isinstance(it.parts[0][1].items[0], Gen) and it.parts[0][1].items[0].ranged:
+            inner = it.parts[0][1].items[0]
+            if len(inner.parts) != 1 or inner.parts[0][2]:
+                raise AnalysisError(f"{what}: inner insertion loop emits {len(inner.parts)} values per step - shape not recognised")
+            out.append(((it.lo, it.hi, it.step), g_and(it.parts[0][0], inner.parts[0][0]), inner))
+        elif len(it.parts) == 1 and not it.parts[0][2]:
+            out.append((None, it.parts[0][0], it))
+        else:
+            raise AnalysisError(f"{what}: inserted-point block with {len(it.parts)} parts - shape not recognised")
+    return out
+
+
+def _judge_segment(rc: RuleCtx, fi, tag: str, pts, tx, ty, guard: G, inner: Gen, depth: int, l: Rat, r: Rat, px=None, py=None, gap_rule="A6") -> bool:
+    """One block against the expected candidate (l, r): A1 guard, A2 count/stride; wrong endpoints -> gap_rule."""
+    res = rc.res
+    want_g = _cand_guard(pts, l, r, tx, ty)
+    want_inner = _inner(depth, pts, tx, l, r)
+    found_inner = Gen(inner.depth, inner.lo, inner.hi, inner.step, [(TRUE, inner.parts[0][1], False)])
+    g_ok = g_equiv(guard, want_g)
+    i_ok = seq_equiv(found_inner, want_inner)
+    if g_ok and i_ok:
+        return True
+    # consistent with another pair of endpoints?  then the segment itself is wrong, not the test / the insertion
+    pool = _index_pool(guard, pts.items[0])
+    for a, b in itertools.permutations(pool, 2):
+        if (a.equals(l) and b.equals(r)):
+            continue
+        if g_equiv(guard, _cand_guard(pts, a, b, tx, ty)) and seq_equiv(found_inner, _inner(depth, pts, tx, a, b)):
+            res.violation(gap_rule, fi.module, fi.name, fi.node, f"{tag}: the examined segment is ({_short(a, 40)}, {_short(b, 40)}) instead of ({_short(l, 40)}, {_short(r, 40)})",
+                          f"({_short(a, 60)}, {_short(b, 60)})", f"({_short(l, 60)}, {_short(r, 60)})", construct=f"segment {tag}")
+            return False
+    if not g_ok:
+        res.violation("A1", fi.module, fi.name, fi.node,
+                      f"{tag}: points are inserted under a test that is not 'normalised width > 2*tx and normalised height > ty' of the segment ({_short(l, 30)}, {_short(r, 30)})",
+                      _short(guard, 300), _short(want_g, 300), construct=f"candidate test {tag}")
+    if not i_ok:
+        cnt_ok = inner.lo.is_zero() and inner.hi.equals(want_inner.hi) and inner.step.is_const() == 1
+        if not cnt_ok:
+            res.violation("A2", fi.module, fi.name, fi.node, f"{tag}: the number of inserted points is not ceil(w / (2*tx)) with w the normalised width of the segment",
+                          f"{inner.var} in [{_short(inner.lo, 40)}, {_short(inner.hi, 160)})", _short(want_inner.hi, 160), construct=f"point count {tag}")
+        else:
+            res.violation("A2", fi.module, fi.name, fi.node, f"{tag}: the inserted points are not left + j * int((right - left) / k), j = 1..k",
+                          _short(inner.parts[0][1], 200), _short(want_inner.parts[0][1], 200), construct=f"stride {tag}")
+    return False
+
+
+def _has_int_conversion(rc: RuleCtx, fi) -> bool:
+    """`.astype(int)` (or dtype=int) on the path to the result: in the function or in a package helper it calls."""
+    seen, todo = set(), [fi]
+    while todo:
+        f = todo.pop()
+        if f.qualname in seen or len(seen) > 12:
+            continue
+        seen.add(f.qualname)
+        for c in ast.walk(f.node):
+            if isinstance(c, ast.Call):
+                if isinstance(c.func, ast.Attribute) and c.func.attr == "astype" and c.args and ast.unparse(c.args[0]) in ("int", "np.int64", "np.intp", "numpy.int64"):
+                    return True
+                if any(kw.arg == "dtype" and ast.unparse(kw.value) in ("int", "np.int64", "np.intp") for kw in c.keywords):
+                    return True
+                r = rc.lk.resolve(f.module, c.func)
+                if r.kind == "func" and r.obj.module is f.module and r.obj.name.startswith("_"):
+                    todo.append(r.obj)
+    return False
+
+
+def _union(rc: RuleCtx, fi, ev, val, env, label: str, tag: str, mapped_knees: bool, flag) -> Vec:
+    """A3 / A4 / A5(knees) on the returned value; returns the list value of the inserted points."""
     res = rc.res
     pts = env["points"]
     n = sym("n")
-    for flag, label in ((TRUE, "extremes=True"), (FALSE, "extremes=False")):
-        e = dict(env)
-        e["extremes"] = flag
-        for nm, v in list(e.items()):
-            if isinstance(v, Vec) and v.kind == "list":
-                e[nm] = ev.symbol(nm + "@list", True)
-        fr = Frame(ev, fi, 0)
-        try:
-            fr.block(stmts, e, TRUE)
-        except Unsupported as ex:
-            raise AnalysisError(f"{fi.qualname}: tail not modelled: {ex}")
-        if len(fr.returns) != 1 or not isinstance(fr.returns[0][1], Rat):
-            raise AnalysisError(f"{fi.qualname}: expected a single return value")
-        val = fr.returns[0][1]
-        a = single_atom(val)
-        if a is None or a.name != "call:postprocessing.filter_worst_knees":
-            res.violation("A4", fi.module, fi.name, fi.node, f"[{label}] the result is not passed through filter_worst_knees", _short(val, 160),
-                          "return filter_worst_knees(points, knees_idx)", construct=f"final filter {tag}")
-            continue
-        amap = dict(zip(a.extra or (), a.args))
-        K = amap.get("knees")
-        if not amap.get("points", C(0)).equals(ev.to_rat(pts)) or K is None:
-            res.violation("A4", fi.module, fi.name, fi.node, f"[{label}] filter_worst_knees is not applied to (points, candidate indices)", _short(val, 160),
-                          "filter_worst_knees(points, knees_idx)", construct=f"final filter args {tag}")
-            continue
-        ka = single_atom(K)
-        if ka is None or ka.name != "np.unique":
-            res.violation("A4", fi.module, fi.name, fi.node, f"[{label}] the candidate indices are not de-duplicated / sorted with np.unique before the filter",
-                          _short(K, 160), "np.unique(knees_idx.astype(int))", construct=f"unique {tag}")
-            continue
-        inner = single_atom(ka.args[0])
-        if inner is None or inner.name != "np.concatenate":
-            res.violation("A4", fi.module, fi.name, fi.node, f"[{label}] the candidate set is not the concatenation of knees, inserted points (and extremes)",
-                          _short(ka.args[0], 160), "np.concatenate((knees, new_knees[, extremes]))", construct=f"union {tag}")
-            continue
-        vec = single_atom(inner.args[0])
-        parts = list(vec.args) if vec is not None and vec.name == "vec" else []
-        # int conversion present on the path
-        has_int = any(isinstance(c, ast.Call) and isinstance(c.func, ast.Attribute) and c.func.attr == "astype" and c.args and ast.unparse(c.args[0]) == "int"
-                      for st in stmts for c in ast.walk(st))
-        if not has_int:
-            res.violation("A4", fi.module, fi.name, fi.node, "the union is not converted to integers (np.concatenate yields floats when a part is empty)", "",
-                          "knees_idx.astype(int)", construct=f"astype {tag}")
-        # parts: knees (mapped or raw), new_knees, extremes
-        want_parts = 3 if flag is TRUE else 2
-        ok = len(parts) == want_parts
-        if ok:
-            k0 = parts[0]
-            if mapped_knees:
-                ma = single_atom(k0)
-                ok_map = ma is not None and ma.name == "call:rdp.mapping"
-                if ok_map:
-                    mm = dict(zip(ma.extra or (), ma.args))
-                    ok_map = mm.get("indexes", C(0)).equals(env["knees"]) and mm.get("reduced", C(0)).equals(env["reduced"]) and \
-                        mm.get("removed", C(0)).equals(ev.to_rat(env["removed"]))
-                if ok_map:
-                    res.ok("A5", f"{tag}[{label}]", "knees enter the union as rdp.mapping(knees, reduced, removed)")
-                else:
-                    res.violation("A5", fi.module, fi.name, fi.node, f"[{label}] the knees are not mapped from reduced space to the original curve before the union",
-                                  _short(k0, 160), "rdp.mapping(knees, reduced, removed)", construct=f"knees mapped {tag}")
+    if not isinstance(val, Rat):
+        raise AnalysisError(f"{fi.qualname}: expected a single return value")
+    a = single_atom(val)
+    if a is None or a.name != "call:postprocessing.filter_worst_knees":
+        res.violation("A4", fi.module, fi.name, fi.node, f"[{label}] the result is not passed through filter_worst_knees", _short(val, 160),
+                      "return filter_worst_knees(points, knees_idx)", construct=f"final filter {tag}")
+        return None
+    amap = dict(zip(a.extra or (), a.args))
+    K = amap.get("knees")
+    if not amap.get("points", C(0)).equals(ev.to_rat(pts)) or K is None:
+        res.violation("A4", fi.module, fi.name, fi.node, f"[{label}] filter_worst_knees is not applied to (points, candidate indices)", _short(val, 160),
+                      "filter_worst_knees(points, knees_idx)", construct=f"final filter args {tag}")
+        return None
+    ka = single_atom(K)
+    if ka is None or ka.name != "np.unique":
+        res.violation("A4", fi.module, fi.name, fi.node, f"[{label}] the candidate indices are not de-duplicated / sorted with np.unique before the filter",
+                      _short(K, 160), "np.unique(knees_idx.astype(int))", construct=f"unique {tag}")
+        return None
+    inner = single_atom(ka.args[0])
+    if inner is None or inner.name != "np.concatenate":
+        res.violation("A4", fi.module, fi.name, fi.node, f"[{label}] the candidate set is not the concatenation of knees, inserted points (and extremes)",
+                      _short(ka.args[0], 160), "np.concatenate((knees, new_knees[, extremes]))", construct=f"union {tag}")
+        return None
+    vec = single_atom(inner.args[0])
+    parts = list(vec.args) if vec is not None and vec.name == "vec" else []
+    if not _has_int_conversion(rc, fi):
+        res.violation("A4", fi.module, fi.name, fi.node, "the union is not converted to integers (np.concatenate yields floats when a part is empty)", "",
+                      "knees_idx.astype(int)", construct=f"astype {tag}")
+    want_parts = 3 if flag is TRUE else 2
+    ok = len(parts) == want_parts
+    new = None
+    if ok:
+        k0 = parts[0]
+        if mapped_knees:
+            ma = single_atom(k0)
+            ok_map = ma is not None and ma.name == "call:rdp.mapping"
+            if ok_map:
+                mm = dict(zip(ma.extra or (), ma.args))
+                ok_map = mm.get("indexes", C(0)).equals(env["knees"]) and mm.get("reduced", C(0)).equals(env["reduced"]) and \
+                    mm.get("removed", C(0)).equals(ev.to_rat(env["removed"]))
+            if ok_map:
+                res.ok("A5", f"{tag}[{label}]", "knees enter the union as rdp.mapping(knees, reduced, removed)")
             else:
-                if not k0.equals(env["knees"]):
-                    ok = False
-            if flag is TRUE:
-                ex = single_atom(parts[2])
-                want_ex = [C(0), n - C(1)]
-                ex_ok = ex is not None and ex.name == "vec" and len(ex.args) == 2 and all(p.equals(q) for p, q in zip(ex.args, want_ex))
-                if ex_ok:
-                    res.ok("A3", f"{tag}", "extremes == [0, len(points) - 1]")
-                else:
-                    res.violation("A3", fi.module, fi.name, fi.node,
-                                  "the extremes added to the output are not the first and last valid indices [0, len(points)-1] (an out-of-range index reaches filter_worst_knees: IndexError)",
-                                  _short(parts[2], 100), "[0, len(points) - 1]", construct=f"extremes {tag}")
-        if ok:
-            res.ok("A4", f"{tag}[{label}]", "concatenate -> astype(int) -> unique -> filter_worst_knees")
-        else:
-            res.violation("A4", fi.module, fi.name, fi.node, f"[{label}] the union does not consist of the knees, the inserted points" + (" and the extremes" if flag is TRUE else ""),
-                          str([_short(p, 60) for p in parts]), "knees, new_knees" + (", extremes" if flag is TRUE else ""), construct=f"union parts {tag}")
+                res.violation("A5", fi.module, fi.name, fi.node, f"[{label}] the knees are not mapped from reduced space to the original curve before the union",
+                              _short(k0, 160), "rdp.mapping(knees, reduced, removed)", construct=f"knees mapped {tag}")
+        elif not k0.equals(env["knees"]):
+            ok = False
+        if flag is TRUE:
+            ex = single_atom(parts[2])
+            want_ex = [C(0), n - C(1)]
+            ex_ok = ex is not None and ex.name == "vec" and len(ex.args) == 2 and all(p.equals(q) for p, q in zip(ex.args, want_ex))
+            if ex_ok:
+                res.ok("A3", f"{tag}", "extremes == [0, len(points) - 1]")
+            else:
+                res.violation("A3", fi.module, fi.name, fi.node,
+                              "the extremes added to the output are not the first and last valid indices [0, len(points)-1] (an out-of-range index reaches filter_worst_knees: IndexError)",
+                              _short(parts[2], 100), "[0, len(points) - 1]", construct=f"extremes {tag}")
+        na = single_atom(parts[1])
+        if na is not None and na.name == "vec":
+            new = ev.vec_registry.get(na.skey)
+        if new is None:
+            raise AnalysisError(f"{fi.qualname}: the inserted points are not a summarised sequence ({_short(parts[1], 80)}; {ev.summary_log[-1:]}) - shape not recognised")
+    if ok:
+        res.ok("A4", f"{tag}[{label}]", "concatenate -> astype(int) -> unique -> filter_worst_knees")
+    else:
+        res.violation("A4", fi.module, fi.name, fi.node, f"[{label}] the union does not consist of the knees, the inserted points" + (" and the extremes" if flag is TRUE else ""),
+                      str([_short(p, 60) for p in parts]), "knees, new_knees" + (", extremes" if flag is TRUE else ""), construct=f"union parts {tag}")
+    return new
 
 
 def run(ctx):
@@ -194,172 +237,131 @@ def run(ctx):
         res.rule(k, v)
     _even(rc)
     _even_knees(rc)
-    res.assumptions += ["curve with non-constant x and y (ranges > 0)", "knees / reduced ascending valid indices"]
+    res.assumptions += ["curve with non-constant x and y (ranges > 0)", "knees / reduced ascending valid indices",
+                        "summarised loops run a non-negative number of iterations"]
     res.not_decided += ["validity of idx = left + j*inc follows arithmetically from A2 (j*inc <= right-left) and is recorded, not separately decided",
                         "numerical width / height tests"]
     res.require_instances("C14 obligations", len(res.obligations), 14)
 
 
+def _eval(rc: RuleCtx, qual: str, with_reduced: bool, flag):
+    fi = rc.func(qual)
+    ev = rc.new_eval()
+    ev.summarise_loops = True
+    ev.no_inline |= {"postprocessing.filter_worst_knees", "rdp.mapping"}
+    pts = ev.point("points", True)
+    knees = ev.symbol("knees", True)
+    ev.len_map = {"points": sym("n"), "knees": sym("K")}
+    env = {"points": pts, "knees": knees, "tx": ev.symbol("tx"), "ty": ev.symbol("ty"), "extremes": flag}
+    if with_reduced:
+        env["reduced"] = ev.symbol("reduced", True)
+        env["removed"] = ev.point("removed", True)
+        ev.len_map.update({"reduced": sym("R"), "removed": sym("M")})
+    try:
+        out = ev.eval_function(fi, dict(env))
+    except Unsupported as e:
+        raise AnalysisError(f"{qual}: not modelled: {e}")
+    return fi, ev, env, out.value()
+
+
 def _even(rc: RuleCtx):
     res = rc.res
-    fi = rc.func("postprocessing.add_points_even")
-    ev = rc.new_eval()
-    ev.no_inline |= {"postprocessing.filter_worst_knees"}
-    pts = ev.point("points", True)
-    reduced, knees = ev.symbol("reduced", True), ev.symbol("knees", True)
-    removed = ev.point("removed", True)
-    ev.len_map = {"points": sym("n"), "reduced": sym("R"), "knees": sym("K"), "removed": sym("M")}
-    tx, ty = ev.symbol("tx"), ev.symbol("ty")
-    env = {"points": pts, "reduced": reduced, "knees": knees, "removed": removed, "tx": tx, "ty": ty, "extremes": ev.symbol("extremes")}
-    loops = _top_loops(fi)
-    if len(loops) != 2:
-        raise AnalysisError("add_points_even: expected two top-level loops")
-    l1, l2 = loops
-    body = fi.node.body
-    k1, k2 = body.index(l1), body.index(l2)
-    fr = Frame(ev, fi, 0)
-    fr.block(body[:k1], env, TRUE)
-    want_pr = Vec([anf.opaque("take", c, reduced, array=True) for c in pts.items], "point")
-    prs = [v for v in env.values() if isinstance(v, Vec) and v.kind == "point" and veq(v, want_pr)]
-    pr = prs[0] if prs else None
-    if not (isinstance(pr, Vec) and veq(pr, want_pr)):
-        res.violation("A1", fi.module, fi.name, fi.node, "the retained points are not points[reduced]", _short(pr), "points[reduced]", construct="points_reduced")
-        return
-    # loop 1: consecutive retained pairs
-    ra = range_args(l1)
-    lo = fr.expr(ra[0], env) if ra and len(ra) == 2 else None
-    hi = fr.expr(ra[1], env) if ra and len(ra) == 2 else None
-    i = ev.symbol(l1.target.id)
-    benv = dict(env)
-    benv[l1.target.id] = i
-    cl = [n for n, v in env.items() if isinstance(v, Vec) and v.kind == "list"]
-    for n in cl:
-        benv[n] = ev.symbol(n + "@list")
-    out = ev.eval_loop_body(fi, l1, benv)
-    apps = [e for e in out.events if e.kind == "append"]
-    want_g, _pdx = _cand_guard(pts, i - C(1), i, tx, ty, px=pr.items[0], py=pr.items[1])
-    rng_ok = isinstance(lo, Rat) and lo.is_const() == 1 and isinstance(hi, Rat) and hi.equals(sym("R"))
-    vals = [(e.guard, e.args[0]) for e in apps]
-    pair_ok = len(apps) == 2 and all(g_equiv(g, want_g) for g, _v in vals) and isinstance(vals[0][1], Rat) and vals[0][1].equals(i - C(1)) \
-        and isinstance(vals[1][1], Rat) and vals[1][1].equals(i) and apps[0].target == apps[1].target
-    if rng_ok and pair_ok:
-        res.ok("A1", "postprocessing.add_points_even", "every consecutive retained pair (i-1, i) is a candidate iff width > 2*tx and height > ty (normalised by the full ranges)")
-    else:
-        res.violation("A1", fi.module, fi.name, l1, "the candidate segments are not exactly the consecutive retained pairs whose normalised width exceeds 2*tx and normalised height exceeds ty",
-                      f"range {ast.unparse(l1.iter)}; " + str([(str(g)[:120], _short(v, 40)) for g, v in vals]), str(want_g)[:200], construct="candidate test even")
-    cand_name = apps[0].target if apps else None
-    # between the loops: candidates mapped
-    e2 = dict(env)
-    if cand_name:
-        e2[cand_name] = ev.symbol(cand_name, True)
-        ev.len_map[cand_name] = sym("Cn")
-    fr2 = Frame(ev, fi, 0)
-    fr2.block(body[k1 + 1:k2], e2, TRUE)
-    cm = e2.get(cand_name)
-    ma = single_atom(cm) if isinstance(cm, Rat) else None
-    ok_map = ma is not None and ma.name == "call:rdp.mapping"
-    if ok_map:
+    for flag, label in ((TRUE, "extremes=True"), (FALSE, "extremes=False")):
+        fi, ev, env, val = _eval(rc, "postprocessing.add_points_even", True, flag)
+        new = _union(rc, fi, ev, val, env, label, "add_points_even", True, flag)
+        if new is None or flag is FALSE:
+            continue
+        pts, tx, ty, reduced = env["points"], env["tx"], env["ty"], env["reduced"]
+        items = flatten(new.items)
+        segs = _segments_of(items, fi.qualname)
+        if len(segs) != 1 or segs[0][0] is None:
+            raise AnalysisError(f"{fi.qualname}: expected one loop over the mapped candidates, found {len(segs)} block(s) - shape not recognised")
+        (lo, hi, step), guard, inner = segs[0]
+        # the mapped candidates: the rdp.mapping atom the inserted points are computed from
+        maps = {}
+        for a in inner.parts[0][1].all_atoms():
+            if a.kind == "fn" and a.name == "call:rdp.mapping":
+                maps[a.skey] = a
+        if len(maps) != 1:
+            res.violation("A5", fi.module, fi.name, fi.node, "the candidate positions (reduced space) are not mapped to the original curve before points are inserted",
+                          _short(inner.parts[0][1], 160), "rdp.mapping(candidates, reduced, removed)", construct="candidates mapped")
+            continue
+        ma = next(iter(maps.values()))
+        cmap = Rat.from_atom(ma)
         mm = dict(zip(ma.extra or (), ma.args))
-        ok_map = mm.get("reduced", C(0)).equals(reduced) and mm.get("removed", C(0)).equals(ev.to_rat(removed)) and mm.get("indexes", C(0)).equals(sym(cand_name, True))
-    if ok_map:
+        ca = single_atom(mm.get("indexes", C(0)))
+        cands = ev.vec_registry.get(ca.skey) if ca is not None and ca.name == "vec" else None
+        if not (mm.get("reduced", C(0)).equals(reduced) and mm.get("removed", C(0)).equals(ev.to_rat(env["removed"])) and cands is not None):
+            res.violation("A5", fi.module, fi.name, fi.node, "the candidate positions (reduced space) are not mapped to the original curve before points are inserted",
+                          _short(cmap, 160), "rdp.mapping(candidates, reduced, removed)", construct="candidates mapped")
+            continue
         res.ok("A5", "postprocessing.add_points_even:candidates", "candidate positions are mapped with rdp.mapping(candidates, reduced, removed)")
-    else:
-        res.violation("A5", fi.module, fi.name, fi.node, "the candidate positions (reduced space) are not mapped to the original curve before points are inserted", _short(cm, 160),
-                      "rdp.mapping(candidates, reduced, removed)", construct="candidates mapped")
-    # loop 2: pairs (candidates[i], candidates[i+1]), step 2
-    cands = ev.symbol("cmap", True)
-    e3 = dict(e2)
-    e3[cand_name] = cands
-    ra = range_args(l2)
-    step_ok = ra is not None and len(ra) == 3 and ast.unparse(ra[0]) == "0" and ast.unparse(ra[2]) == "2"
-    j = ev.symbol(l2.target.id)
-    e3[l2.target.id] = j
-    fr3 = Frame(ev, fi, 0)
-    inner = [st for st in l2.body if isinstance(st, ast.For)]
-    e4 = dict(e3)
-    fr3.block(l2.body[:l2.body.index(inner[0])] if inner else [], e4, TRUE)
-    lefts = [v for v in e4.values() if isinstance(v, Rat) and v.equals(_at(cands, j))]
-    rights = [v for v in e4.values() if isinstance(v, Rat) and v.equals(_at(cands, j + C(1)))]
-    left, right = (lefts[0] if lefts else None), (rights[0] if rights else None)
-    if step_ok and isinstance(left, Rat) and isinstance(right, Rat):
-        res.ok("A2", "postprocessing.add_points_even:pairs", "mapped candidates are processed as (left, right) pairs")
-        _check_process(rc, fi, l2, e3, ev, left, right, e3, "add_points_even")
-    else:
-        res.violation("A2", fi.module, fi.name, l2, "the mapped candidates are not processed as consecutive (left, right) pairs", ast.unparse(l2.iter),
-                      "for i in range(0, len(candidates), 2): left, right = candidates[i], candidates[i+1]", construct="candidate pairs")
-    _check_tail(rc, fi, body[k2 + 1:], e2, ev, "add_points_even", mapped_knees=True)
+        # A1: the candidate list
+        i0 = var_symbol(0)
+        prx = anf.opaque("take", pts.items[0], reduced, array=True)
+        pry = anf.opaque("take", pts.items[1], reduced, array=True)
+        want_g = _cand_guard(pts, i0 - C(1), i0, tx, ty, px=prx, py=pry)
+        want_c = Vec(flatten([Gen(0, C(1), sym("R"), C(1), [(want_g, i0 - C(1), False), (want_g, i0, False)])]), "list")
+        if seq_equiv(Vec(flatten(cands.items), "list"), want_c):
+            res.ok("A1", "postprocessing.add_points_even", "every consecutive retained pair (i-1, i) is a candidate iff width > 2*tx and height > ty (normalised by the full ranges)")
+        else:
+            res.violation("A1", fi.module, fi.name, fi.node,
+                          "the candidate segments are not exactly the consecutive retained pairs whose normalised width exceeds 2*tx and normalised height exceeds ty",
+                          _short(cands, 400), _short(want_c, 400), construct="candidate test even")
+        # A2: pairs (cmap[i], cmap[i+1]), i = 0, 2, 4, ...
+        Ln = ev.length_of(cmap)
+        if lo.is_zero() and hi.equals(Ln) and step.is_const() == 2 and guard.kind == "true":
+            res.ok("A2", "postprocessing.add_points_even:pairs", "mapped candidates are processed as (left, right) pairs")
+        else:
+            res.violation("A2", fi.module, fi.name, fi.node, "the mapped candidates are not processed as consecutive (left, right) pairs",
+                          f"[{_short(lo, 40)}, {_short(hi, 80)}) step {step} under {_short(guard, 80)}", "for i in range(0, len(candidates), 2): left, right = candidates[i], candidates[i+1]",
+                          construct="candidate pairs")
+            continue
+        l, r = _at(cmap, i0), _at(cmap, i0 + C(1))
+        want_inner = _inner(1, pts, tx, l, r)
+        found_inner = Gen(inner.depth, inner.lo, inner.hi, inner.step, [(TRUE, inner.parts[0][1], False)])
+        if seq_equiv(found_inner, want_inner):
+            res.ok("A2", "add_points_even:count", "ceil(normalised width / (2*tx)) points per candidate segment")
+            res.ok("A2", "add_points_even:stride", "idx starts at left; each step adds int((right - left) / k) and emits idx")
+        elif not (inner.lo.is_zero() and inner.hi.equals(want_inner.hi)):
+            res.violation("A2", fi.module, fi.name, fi.node, "the number of inserted points is not ceil(w / (2*tx)) with w the normalised width of the segment",
+                          _short(inner.hi, 200), _short(want_inner.hi, 200), construct="point count add_points_even")
+        else:
+            res.violation("A2", fi.module, fi.name, fi.node, "the inserted points are not left + j * int((right - left) / k), j = 1..k",
+                          _short(inner.parts[0][1], 200), _short(want_inner.parts[0][1], 200), construct="stride add_points_even")
 
 
 def _even_knees(rc: RuleCtx):
     res = rc.res
-    fi = rc.func("postprocessing.add_points_even_knees")
-    ev = rc.new_eval()
-    ev.no_inline |= {"postprocessing.filter_worst_knees"}
-    pts = ev.point("points", True)
-    knees = ev.symbol("knees", True)
-    ev.len_map = {"points": sym("n"), "knees": sym("K")}
-    tx, ty = ev.symbol("tx"), ev.symbol("ty")
-    env = {"points": pts, "knees": knees, "tx": tx, "ty": ty, "extremes": ev.symbol("extremes")}
-    loops = _top_loops(fi)
-    if len(loops) != 2:
-        raise AnalysisError("add_points_even_knees: expected two top-level loops")
-    l1, l2 = loops
-    body = fi.node.body
-    k1, k2 = body.index(l1), body.index(l2)
-    n = sym("n")
-    # head gap (0, knees[0])
-    fr = Frame(ev, fi, 0)
-    e1 = dict(env)
-    fr.block(body[:k1], e1, TRUE)
-    head = [e for e in fr.events if e.kind == "append"]
-    g0, _ = _cand_guard(pts, C(0), _at(knees, C(0)), tx, ty)
-    gaps_ok = True
-    if not (len(head) == 1 and g_equiv(head[0].guard, g0) and veq(head[0].args[0], Vec([C(0), _at(knees, C(0))]))):
-        gaps_ok = False
-        res.violation("A6", fi.module, fi.name, fi.node, "the gap between the curve start and the first knee (0, knees[0]) is not examined with the candidate test",
-                      str([(str(e.guard)[:100], _short(e.args[0], 60)) for e in head]), "(0, knees[0]) iff width > 2*tx and height > ty", construct="head gap")
-    # middle gaps
-    ra = range_args(l1)
-    lo = fr.expr(ra[0], e1) if ra and len(ra) == 2 else None
-    hi = fr.expr(ra[1], e1) if ra and len(ra) == 2 else None
-    i = ev.symbol(l1.target.id)
-    benv = dict(e1)
-    benv[l1.target.id] = i
-    for nm, v in list(benv.items()):
-        if isinstance(v, Vec) and v.kind == "list":
-            benv[nm] = ev.symbol(nm + "@list")
-    out = ev.eval_loop_body(fi, l1, benv)
-    apps = [e for e in out.events if e.kind == "append"]
-    gm, _ = _cand_guard(pts, _at(knees, i - C(1)), _at(knees, i), tx, ty)
-    if not (isinstance(lo, Rat) and lo.is_const() == 1 and isinstance(hi, Rat) and hi.equals(sym("K")) and len(apps) == 1
-            and g_equiv(apps[0].guard, gm) and veq(apps[0].args[0], Vec([_at(knees, i - C(1)), _at(knees, i)]))):
-        gaps_ok = False
-        res.violation("A6", fi.module, fi.name, l1, "the gaps between consecutive knees (k_{j-1}, k_j) are not all examined with the candidate test",
-                      f"{ast.unparse(l1.iter)}; " + str([(str(e.guard)[:100], _short(e.args[0], 60)) for e in apps]), "(knees[i-1], knees[i]) for i in 1..len(knees)-1",
-                      construct="middle gaps")
-    # tail gap (knees[-1], n-1)
-    fr2 = Frame(ev, fi, 0)
-    e2 = dict(e1)
-    for nm, v in list(e2.items()):
-        if isinstance(v, Vec) and v.kind == "list":
-            e2[nm] = ev.symbol(nm + "@list")
-    fr2.block(body[k1 + 1:k2], e2, TRUE)
-    tail = [e for e in fr2.events if e.kind == "append"]
-    gt, _ = _cand_guard(pts, _at(knees, C(-1)), n - C(1), tx, ty)
-    if not (len(tail) == 1 and g_equiv(tail[0].guard, gt) and veq(tail[0].args[0], Vec([_at(knees, C(-1)), n - C(1)]))):
-        gaps_ok = False
-        res.violation("A6", fi.module, fi.name, fi.node, "the gap between the last knee and the curve end (knees[-1], len(points)-1) is not examined with the candidate test",
-                      str([(str(e.guard)[:100], _short(e.args[0], 60)) for e in tail]), "(knees[-1], len(points)-1)", construct="tail gap")
-    if gaps_ok:
-        res.ok("A6", fi.qualname, "gaps (0, k_0), (k_{j-1}, k_j), (k_last, n-1), each under the A1 test")
-        res.ok("A1", fi.qualname, "same candidate test as add_points_even (width > 2*tx and height > ty, full-range normalisation)")
-    # processing loop: for left, right in candidates
-    if not (isinstance(l2.target, ast.Tuple) and len(l2.target.elts) == 2):
-        res.violation("A2", fi.module, fi.name, l2, "candidates are not processed as (left, right) pairs", ast.unparse(l2.target), "for left, right in candidates", construct="candidate pairs knees")
-    else:
-        e3 = dict(e2)
-        left, right = ev.symbol("left"), ev.symbol("right")
-        e3[l2.target.elts[0].id] = left
-        e3[l2.target.elts[1].id] = right
-        _check_process(rc, fi, l2, e3, ev, left, right, e3, "add_points_even_knees")
-    _check_tail(rc, fi, body[k2 + 1:], e2, ev, "add_points_even_knees", mapped_knees=False)
+    for flag, label in ((TRUE, "extremes=True"), (FALSE, "extremes=False")):
+        fi, ev, env, val = _eval(rc, "postprocessing.add_points_even_knees", False, flag)
+        new = _union(rc, fi, ev, val, env, label, "add_points_even_knees", False, flag)
+        if new is None or flag is FALSE:
+            continue
+        pts, tx, ty, knees = env["points"], env["tx"], env["ty"], env["knees"]
+        n = sym("n")
+        segs = _segments_of(flatten(new.items), fi.qualname)
+        i0 = var_symbol(0)
+        want = [(None, C(0), _at(knees, C(0)), 0, "head gap (0, knees[0])"),
+                ((C(1), sym("K"), C(1)), _at(knees, i0 - C(1)), _at(knees, i0), 1, "gaps between consecutive knees"),
+                (None, _at(knees, C(-1)), n - C(1), 0, "tail gap (knees[-1], len(points)-1)")]
+        shape = [s[0] is not None for s in segs]
+        if shape != [False, True, False]:
+            res.violation("A6", fi.module, fi.name, fi.node,
+                          "the examined gaps are not (0, knees[0]), every (knees[j-1], knees[j]) and (knees[-1], len(points)-1), in this order",
+                          f"{len(segs)} block(s): " + str(["loop" if x else "single" for x in shape]), "single, loop over j = 1..len(knees)-1, single", construct="gaps")
+            continue
+        all_ok = True
+        for (rng, guard, inner), (wrng, l, r, depth, what) in zip(segs, want):
+            if wrng is not None and not (rng[0].equals(wrng[0]) and rng[1].equals(wrng[1]) and rng[2].equals(wrng[2])):
+                all_ok = False
+                res.violation("A6", fi.module, fi.name, fi.node, "the gaps between consecutive knees (k_{j-1}, k_j) are not all examined",
+                              f"j in [{rng[0]}, {rng[1]}) step {rng[2]}", "j in [1, len(knees))", construct="middle gaps")
+                continue
+            if not _judge_segment(rc, fi, what, pts, tx, ty, guard, inner, depth, l, r):
+                all_ok = False
+        if all_ok:
+            res.ok("A6", fi.qualname, "gaps (0, k_0), (k_{j-1}, k_j), (k_last, n-1), each under the A1 test")
+            res.ok("A1", fi.qualname, "same candidate test as add_points_even (width > 2*tx and height > ty, full-range normalisation)")
+            res.ok("A2", "add_points_even_knees:count", "ceil(normalised width / (2*tx)) points per candidate segment")
+            res.ok("A2", "add_points_even_knees:stride", "idx starts at left; each step adds int((right - left) / k) and emits idx")
